@@ -142,9 +142,11 @@ def _same_result(r, rj):
     if isinstance(r, Exc) != isinstance(rj, Exc):
         return False
     if isinstance(r, Exc):
+        if rj.kind is None and r.kind is None:
+            return r.origin == rj.origin       # both "the backend's exception" of the same source (terms are equated by the caller)
         if rj.kind is None:
             # the contract allows "some exception that is not a KeyError"
-            return r.kind is not None and not exc_issub(r.kind, 'KeyError')
+            return r.kind is not None and not exc_issub(r.kind, 'KeyError') and rj.origin != 'archive write rejected'
         return r.kind == rj.kind
     if isinstance(r, NoneV) and isinstance(rj, NoneV):
         return True
@@ -268,7 +270,11 @@ def obligations(case):
                     ob('dump_keys.only_given_resident_keys', z3.Implies(on, z3.And(
                         forall([x], post.A.dom[x] == z3.Or(pre.A.dom[x], sel(x))),
                         forall([x], z3.Implies(post.A.dom[x], post.A.val[x] == z3.If(sel(x), pre.mem.val[x], pre.A.val[x]))))))
-                if not normal:
+                if not normal and r.origin == 'archive write rejected':
+                    # the backend could not encode a value: the write raises; what was archived before is still there
+                    ob('dump.rejected_write_keeps_archived_entries', z3.And(on, forall([x], z3.Implies(
+                        pre.A.dom[x], z3.And(post.A.dom[x], z3.Or(post.A.val[x] == pre.A.val[x], z3.And(pre.mem.dom[x], post.A.val[x] == pre.mem.val[x])))))))
+                elif not normal:
                     ob('dump.raises_only_for_unhashable_key', r.kind == 'TypeError' and bool(pos) and
                        z3.Or(*[z3.Not(Hashable(k.term)) for k in pos]))
             if meth == 'load':
@@ -293,6 +299,8 @@ def obligations(case):
                     ob('sync_clear.archive_equals_cache', z3.Implies(z3.And(on, clr), map_eq(post.A, pre.mem)))
                     ob('sync_clear.cache_unchanged', z3.Implies(clr, map_eq(post.mem, pre.mem)))
                     ob('sync.off_changes_nothing', z3.Implies(pre.A.null, z3.And(map_eq(pre.mem, post.mem), map_eq(pre.A, post.A))))
+                elif r.origin == 'archive write rejected':
+                    ob('sync.rejected_write_leaves_cache', map_eq(pre.mem, post.mem))
                 else:
                     ob('sync.never_raises', False)
             if meth == 'archived':
